@@ -336,13 +336,19 @@ impl Rasterizer {
 
         // if the edge is completely above or completely below we can drop it
         if edge.y2 < 0 || edge.y1 >= self.height {
+            #[cfg(raqote_verif)]
+            crate::verif::hit(crate::verif::ADD_EDGE_DROPPED_ABOVE_OR_BELOW);
             return;
         }
 
         // drop horizontal edges
         if cury >= e.y2 {
+            #[cfg(raqote_verif)]
+            crate::verif::hit(crate::verif::ADD_EDGE_DROPPED_HORIZONTAL);
             return;
         }
+        #[cfg(raqote_verif)]
+        crate::verif::hit(if curve { crate::verif::ADD_EDGE_CURVE } else { crate::verif::ADD_EDGE_LINE });
 
         self.bounds_top = self.bounds_top.min(dot2_to_int(edge.y1));
         self.bounds_bottom = self.bounds_bottom.max(dot2_to_int(edge.y2 + 3));
@@ -410,6 +416,8 @@ impl Rasterizer {
         }
 
         if cury < 0 {
+            #[cfg(raqote_verif)]
+            crate::verif::hit(crate::verif::ADD_EDGE_STARTS_ABOVE);
             // XXX: we could compute an intersection with the top and bottom so we don't need to step them into view
             // for curves we can just step them into place.
             while cury < 0 {
@@ -419,6 +427,8 @@ impl Rasterizer {
 
             // cury was adjusted so check again for horizontal edges
             if cury >= e.y2 {
+                #[cfg(raqote_verif)]
+                crate::verif::hit(crate::verif::ADD_EDGE_DROPPED_AFTER_STEPPING);
                 return;
             }
         }
@@ -528,6 +538,8 @@ impl Rasterizer {
             if e.fullx >= 0 {
                 break;
             }
+            #[cfg(raqote_verif)]
+            crate::verif::hit(crate::verif::SCAN_SKIPPED_LEFT);
             winding += e.winding as i32;
             edge = e.next;
         }
@@ -550,6 +562,8 @@ impl Rasterizer {
             }
 
             if dot16_to_dot2(e.fullx) >= self.width {
+                #[cfg(raqote_verif)]
+                crate::verif::hit(crate::verif::SCAN_STOPPED_RIGHT);
                 break;
             }
             winding += e.winding as i32;
@@ -628,6 +642,17 @@ impl Rasterizer {
         }
     }
 
+    /// true if nothing is left over from earlier paths
+    #[cfg(raqote_verif)]
+    pub fn verif_is_idle(&self) -> bool {
+        self.active_edges.is_none()
+            && self.edge_starts.iter().all(|e| e.is_none())
+            && self.bounds_bottom == 0
+            && self.bounds_right == 0
+            && self.bounds_top == dot2_to_int(self.height)
+            && self.bounds_left == dot2_to_int(self.width)
+    }
+
     pub fn get_bounds(&self) -> IntRect {
         intrect(self.bounds_left.max(0),
                 self.bounds_top.max(0),
@@ -636,6 +661,8 @@ impl Rasterizer {
     }
 
     pub fn reset(&mut self) {
+        #[cfg(raqote_verif)]
+        crate::verif::hit(if self.bounds_bottom < self.bounds_top { crate::verif::RESET_NOTHING_ADDED } else { crate::verif::RESET_CLEARED });
         if self.bounds_bottom < self.bounds_top {
             debug_assert_eq!(self.active_edges, None);
             for e in &mut self.edge_starts {
